@@ -1,6 +1,6 @@
 //! Correspondence cases for C12 (symbol catalogue, lists, filters).
 use crate::util::*;
-use datamatrix::{verif_hooks as vh, DataMatrixBuilder, EncodationType, SymbolList, SymbolSize};
+use datamatrix::{verif_hooks as vh, DataMatrix, DataMatrixBuilder, EncodationType, SymbolList, SymbolSize};
 use std::io::Write;
 use std::ops::Bound;
 
@@ -316,6 +316,41 @@ pub fn gen(out: &mut dyn Write, seed: u64, thorough: bool) {
             }
         }
         writeln!(out, "# builder_setter_orders {}", n_orders).unwrap();
+    }
+    // an empty list stays empty on its way through the builder and the wrappers: nothing may be picked
+    {
+        let empties: Vec<(&str, SymbolList)> = vec![
+            ("whitelist", SymbolList::with_whitelist(Vec::<SymbolSize>::new())),
+            ("square+rect", SymbolList::default().enforce_square().enforce_rectangular()),
+            ("width-gap", SymbolList::with_extended_rectangles().enforce_width_in(11..12)),
+            ("height-none", SymbolList::default().enforce_height_in(145..)),
+        ];
+        let mut n_empty = 0usize;
+        for (_, e) in &empties {
+            for n in [0usize, 1, 3, 50] {
+                for variant in 0..6usize {
+                    let data = vec![b'a'; n];
+                    let e2 = e.clone();
+                    let r = guarded(move || match variant {
+                        0 => DataMatrix::encode(&data, e2).map(|d| d.size),
+                        1 => DataMatrix::encode_gs1(&data, e2).map(|d| d.size),
+                        2 => DataMatrix::encode_str("aaa", e2).map(|d| d.size),
+                        3 => DataMatrixBuilder::new().with_symbol_list(e2).encode(&data).map(|d| d.size),
+                        4 => DataMatrixBuilder::new().with_symbol_list(SymbolSize::Square20).with_symbol_list(e2).with_macros(false).encode(&data).map(|d| d.size),
+                        _ => datamatrix::data::encode_data(&data, &e2, None, EncodationType::all(), true).map(|d| d.1),
+                    });
+                    let ans = match r {
+                        Ok(Ok(sz)) => size_index(sz).to_string(),
+                        Ok(Err(datamatrix::data::DataEncodingError::SymbolListEmpty)) => "none".into(),
+                        Ok(Err(_)) => "wrong-error".into(),
+                        Err(_) => "panic".into(),
+                    };
+                    n_empty += 1;
+                    writeln!(out, "P first - {} => {}", n, ans).unwrap();
+                }
+            }
+        }
+        writeln!(out, "# empty_list_entry_points {}", n_empty).unwrap();
     }
     // the builder's own default list (no `with_symbol_list`): must behave as the standard's 30 sizes
     {
